@@ -429,6 +429,42 @@ class SpecEval:
             raise SpecError("allocated() of a non-object")
         return V.mk_bool(z3.Select(self.st.alloc_map(x.ty.name), x.t))
 
+    def fn_is_exactly(self, node):
+        """is_exactly(a, b): representation-level equality of two container values (implies a == b).  Meant for the ensures of
+        assumed boundary contracts, where it *defines* the havocked post-state as a store term instead of a quantified relation."""
+        a, b = self.ev(node.args[0]), self.ev(node.args[1])
+        a, b = V.unify(a, b)
+        return V.mk_bool(z3.And([x == y for x, y in zip(a.parts, b.parts)]) if a.parts else z3.BoolVal(True))
+
+    def fn_upd(self, node):
+        """upd(d, k, v): the dict d with d[k] = v (a term: no fresh symbol)."""
+        d, k, v = (self.ev(a) for a in node.args)
+        return V.dict_set(d, O.coerce(k, d.ty.args[0]) if not V.is_empty_literal(d) else k, v)
+
+    def fn_rem(self, node):
+        """rem(d, k): the dict d without key k."""
+        d, k = (self.ev(a) for a in node.args)
+        return V.dict_del(d, O.coerce(k, d.ty.args[0]))
+
+    def fn_snoc(self, node):
+        """snoc(L, x): the list L with x appended (a term: no fresh symbol)."""
+        lst, x = self.ev(node.args[0]), self.ev(node.args[1])
+        x = O.coerce(x, lst.ty.elem)
+        n = V.list_len(lst)
+        return Val(lst.ty, [z3.Store(a, n, p) for a, p in zip(lst.parts[:-1], x.parts)] + [n + 1])
+
+    def fn_nil(self, node):
+        """nil("List[T]"): the empty list of that type."""
+        ty = T.parse_ty(node.args[0].value)
+        return V.empty_list(ty.elem)
+
+    def fn_receiver(self, node):
+        """receiver(m): the object a bound-method value of type Method[Class.meth] is bound to."""
+        m = self.ev(node.args[0])
+        if not isinstance(m, Val) or m.ty.kind != "method":
+            raise SpecError("receiver() of a value that is not a bound method")
+        return Val(T.Ref(m.ty.name.rsplit(".", 1)[0]), m.parts)
+
     def fn_fresh(self, node):
         """fresh(x): the object x (evaluated in the current state) exists now and did not exist at entry."""
         x = O.strip_opt(self.ev(node.args[0]))
